@@ -47,10 +47,15 @@ def split_module(page):
     return None, page
 
 
+IMPL_DOCS = {}     # member name -> (doc, entry index) of the page entry that stems from the implementing function's doccomment
+
+
 def member_lines(m, cname, j, cmd="cpp_member"):
+    idoc = IMPL_DOCS.get(m["name"])
     return (doc_block(m["doc"], "  ", j) if documented(m["doc"]) else []) + \
-        ["  %s(%s)" % (cmd, " ".join([m["name"], cname] + list(m["ptypes"]))),
-         "  %s(\"${%s}\" %s)" % ("macro" if m["ismacro"] else "function", m["name"], " ".join(["self"] + list(m["params"]))),
+        ["  %s(%s)" % (cmd, " ".join([m["name"], cname] + list(m["ptypes"])))] + \
+        (doc_block(idoc[0], "  ", idoc[1]) if idoc else []) + \
+        ["  %s(\"${%s}\" %s)" % ("macro" if m["ismacro"] else "function", m["name"], " ".join(["self"] + list(m["params"]))),
          "  end%s()" % ("macro" if m["ismacro"] else "function")]
 
 
@@ -60,16 +65,26 @@ def source_of(page):
     mod, page = split_module(page)
     if mod is not None:
         out += ["#[[[ @module"] + doc_block(mod["doc"], "", 0)[1:]
+    IMPL_DOCS.clear()
+    for j, e in enumerate(page, 1):
+        if e.get("impl"):
+            IMPL_DOCS[e["impl"]] = (e["doc"], j)
     for j, e in enumerate(page, 1):
         name = nm(e["name"], j)
         d = doc_block(e["doc"], "", j) if documented(e["doc"]) else []
         k = e["k"]
+        if e.get("impl"):
+            continue          # written as the doccomment of the member's implementing function, inside the class
         if k == "function":
             out += d + ["function(%s %s)" % (name, " ".join(e["args"])), "endfunction()"]
         elif k == "macro":
             out += d + ["macro(%s %s)" % (name, " ".join(e["args"])), "endmacro()"]
         elif k == "variable":
-            out += d + ["set(%s %s)" % (name, e["value"] if e["vtype"] == "list" else '"%s"' % e["value"])]
+            if e["vtype"] == "list":
+                # a list written over several lines, continuation lines in column 0: the page is the same as for one line
+                out += d + ["set(%s" % name] + e["value"].split(" ") + [")"]
+            else:
+                out += d + ["set(%s %s)" % (name, '"%s"' % e["value"])]
         elif k == "option":
             out += d + ["option(%s %s %s)" % (name, e["help"], e["value"])]
         elif k == "generic":
